@@ -27,33 +27,10 @@ from ..model import AnalysisError, ClassInfo
 from .. import q
 from .. import roles
 from .c02 import _no_cb_inline
+from ..roles import Queue as Q, removers, removal_actions, _removes, REMOVE
 
 MUT = {"append", "appendleft", "insert", "add", "extend", "pop", "popleft", "remove", "discard", "clear"}
-REMOVE = ("remove", "pop", "popleft")
 SELF = ("param", "self")
-
-
-class Q(object):
-    """a queueing executor: class, queue field, record class, role fields, lock fields"""
-
-    def __init__(self, ctx, cls):
-        self.cls = cls
-        self.field, self.rec, self.roles = roles.record_roles(ctx, cls)
-        self.locks = roles.lock_fields(ctx, cls)
-        if not self.locks:
-            raise AnalysisError("%s: no lock field found" % cls.name)
-
-    def is_queue(self, term, it, p):
-        return isinstance(term, tuple) and term[0] == "attr" and term[2] == self.field and it.type_of(term[1], p) == "C:" + self.cls.key
-
-    def lock_held(self, ev, owner):
-        return any(l[1][0] == "attr" and l[1][1] == owner and l[1][2] in self.locks for l in ev.locks if isinstance(l[1], tuple))
-
-    def lock_term(self, ev, owner):
-        for l in ev.locks:
-            if isinstance(l[1], tuple) and l[1][0] == "attr" and l[1][1] == owner and l[1][2] in self.locks:
-                return l[1]
-        return None
 
 
 def check(ctx, rep):
@@ -211,7 +188,7 @@ def check(ctx, rep):
     rep.count("cancel hook implementations", nme, 4)
 
     # ------------------------------------------------------------------ R-GUARDED
-    ng = 0
+    ng = set()
     for fi in sorted(prog.functions.values(), key=lambda f: f.key):
         if fi.parent is not None or fi.name == "__init__":
             continue
@@ -225,7 +202,7 @@ def check(ctx, rep):
                     if isinstance(r, tuple) and r[0] == "attr" and q.call_name(e) in MUT:
                         for Qx, _rem in queues:
                             if Qx.is_queue(r, it, p):
-                                ng += 1
+                                ng.add((fi.key, Qx.cls.name, q.call_name(e)))
                                 ok = Qx.lock_held(e, r[1])
                                 # helpers that are only called with the lock held
                                 if not ok:
@@ -235,40 +212,10 @@ def check(ctx, rep):
                 for s in p.evs("store"):
                     t = s.d["target"]
                     if s.fn is fi and t[0] == "attr" and t[2] == STOP and it.type_of(t[1], p) == REC:
-                        ng += 1
+                        ng.add((fi.key, "flag"))
                         ok = any(RQ.lock_held(s, o) for o in _owners(s, RQ))
                         rep.ob("R-GUARDED", "%s: stop flag written under the executor lock" % fi.qualname, ok, "the stop flag is written without the executor lock", where_of(fi, s.node), trace_of(p, s.seq))
-    rep.count("guarded mutations", ng, 8)
-
-
-def removers(ctx, Qx):
-    """methods of the executor that search the queue for the job they are given (by identity) and remove it"""
-    out = set()
-    for c in Qx.cls.mro():
-        if not isinstance(c, ClassInfo):
-            continue
-        for m in c.methods.values():
-            if len(m.params) < 2 or Qx.cls.lookup(m.name)[1] is not m:
-                continue
-            ps, it = ctx.paths(m, Qx.cls, depth=0)
-            for p in ps:
-                for e in p.calls():
-                    if e.fn is m and q.call_name(e) in REMOVE and Qx.is_queue(q.recv(e), it, p) and _removes(e, ("param", m.params[1]), p):
-                        out.add(m.key)
-    return out
-
-
-def removal_actions(p, it, Qx, rem):
-    """removals from the queue on this path: [(event, removed job or None)] -- a call of a remover helper counts
-    once (what happens inside it is its own business)"""
-    remcalls = [e for e in p.calls() if e.d["callee"] is not None and e.d["callee"].key in rem]
-    top = [e for e in remcalls if not any(c.node in e.stack for c in remcalls if c is not e)]
-    acts = [(e, e.d["args"][0] if e.d["args"] else None) for e in top]
-    for e in p.calls():
-        if q.call_name(e) in REMOVE and Qx.is_queue(q.recv(e), it, p) and not any(c.node in e.stack for c in top):
-            acts.append((e, None))
-    acts.sort(key=lambda x: x[0].seq)
-    return acts
+    rep.count("guarded mutation sites", len(ng), 6)
 
 
 def _owners(ev, Qx):
@@ -358,32 +305,3 @@ def _source(v, p, it, dcs, queues, CFS):
     return None
 
 
-def _removes(e, J, p):
-    """does the removal event e remove job J?  remove(J) / pop(index of the element found identical to J)"""
-    a = e.d["args"]
-    if q.call_name(e) == "remove":
-        return a == (J,)
-    if q.call_name(e) == "pop" and len(a) == 1:
-        idx = a[0]
-        if not (isinstance(idx, tuple) and idx[0] in ("index", "unpack")):
-            return False
-        for t, val, b in q.atoms(p):
-            if val is True and b.seq < e.seq and isinstance(t, tuple) and t[0] == "cmp" and t[1] == "is" and J in (t[2], t[3]):
-                other = t[3] if t[2] == J else t[2]
-                if _same_iteration(idx, other):
-                    return True
-        return False
-    return False
-
-
-def _same_iteration(idx, elem):
-    """index term and element term stem from the same enumerate() iteration"""
-    def root(t):
-        while isinstance(t, tuple) and t and t[0] == "unpack":
-            t = t[1]
-        return t
-    ri, re_ = root(idx), root(elem)
-    if ri == re_:
-        return True
-    # index(src, site) vs elem(src, site)
-    return isinstance(ri, tuple) and isinstance(re_, tuple) and len(ri) >= 3 and len(re_) >= 3 and ri[1:3] == re_[1:3]
